@@ -1,4 +1,4 @@
-FIX_COMMITS = ["69b3d933 (C14 combine_modules trailing KR)", "4bfb28a9 (C04 distance of multi-part locations)", "cc9a0c1b (C04 offset_location end on wrap point)"]
+FIX_COMMITS = ["see known_findings.json: every entry with status fixed names its commit (21 fix: commits, 69b3d933 .. 9c8ccb81)"]
 NOT_APPLICABLE_REASONS = {}
 CLAIMED = {
  "C04": {
@@ -24,5 +24,22 @@ CLAIMED = {
            "reload identity. Correspondence: 20k (quick) / 300k (thorough) random and assembly-line-shaped genes and gene pairs, comparing "
            "components, the six state slots and seven derived flags of every module, for build, build+reload and combine."),
   "note": "HMMResult objects are built by the harness (no HMMER); KS subtypes are injected as internal hits.",
+ },
+ "C15": {
+  "text": ("Proof about a faithful Gallina transcription of all_orfs.scan_orfs and find_intergenic_areas (codon tables REGENERATED from the "
+           "source on every run). Proved for every DNA string, frame, minimum, offset and record length (C15/Theorems.v): the scanning loop "
+           "reports (s,e) IFF s is a start codon, e the next in-frame stop codon, and every earlier start codon is followed by a stop before s "
+           "(C15_scan_sound_complete_kinds: sound and complete, position-only statement, by induction over the codon list with a pending-start "
+           "invariant); no ORF twice; with the length filter exactly those ORFs with last-first >= minimum are kept (C15_scan_sound_complete_partial) "
+           "- the property's 'at least the minimum length' is REFUTED for length exactly = minimum (C15_exact_minimum_refuted, known finding F23, the "
+           "existing suite pins it); coordinates: linear forward/mirrored reverse formula, and on a ring for every offset incl. negative: parts inside "
+           "the record, non-empty, same strand, at most two split at the origin with reverse-strand parts in transcription order, total length = ORF "
+           "length (C15_coordinates_ring); result sorted by position (C15_sorted); find_intergenic_areas: for every gene list ordered by start, incl. "
+           "nested and staggered genes, every area is inside the range, >= min_length, and overlaps no gene by more than the padding "
+           "(C15_intergenic_sound, loop invariant). NOT proved (correspondence + Biopython extraction oracle only): that the location extracts to the "
+           "ORF's text, find_all_orfs/_find_cross_origin_intergenic glue, completeness (maximality) of intergenic areas, translation/labels. "
+           "Correspondence: 30k (quick) / 500k (thorough) windows of codon-structured genomes, both strands, windows starting before the origin, and "
+           "gene layouts; every reported location is also extracted from the genome with Biopython and checked to be start..stop without inner stop."),
+  "note": "Biopython Seq.extract is used by the implementation-side oracle only.",
  },
 }
